@@ -32,9 +32,6 @@ def return_pending_polls(sim) -> int:
     return n
 
 
-BROADCAST_FORMS = 6
-
-
 async def cmd_broadcast(sc, n: int) -> None:
     """Schedule step `broadcast`: one single-key broadcast (point '*' or a
     specific cycle point; namespace root or a task).  Single-key settings
@@ -209,11 +206,16 @@ def norm_task(t: dict) -> dict:
         'held': bool(t['held']),
         'outputs': sorted(t['outputs']),
         'sat': {k: bool(v) for k, v in t['sat'].items()},
-        # user-declared xtriggers only: retry delays are implemented as
-        # internal `_cylc_retry_*` / `_cylc_submit_retry_*` wall_clock
-        # xtriggers, which are not "xtrigger satisfaction" of the statement
+        # user-declared xtriggers; retry delays are implemented as internal
+        # `_cylc_retry_*` / `_cylc_submit_retry_*` wall_clock xtriggers
         'xtriggers': {k: bool(v) for k, v in t.get('xtriggers', {}).items()
                       if not k.startswith('_cylc')},
+        # compared under a signature of their own (see c19.py)
+        # (only the unsatisfied ones: a satisfied retry xtrigger that is
+        # not re-created makes no difference)
+        'retry_xtriggers': sorted(
+            k for k, v in t.get('xtriggers', {}).items()
+            if k.startswith('_cylc') and not v),
     }
 
 
